@@ -565,6 +565,11 @@ class BlsTranslator(ExtraTranslator):
         if isinstance(st, ast.AugAssign):
             if not isinstance(st.target, ast.Name):
                 raise TranslateError("augmented assignment to a non-name")
+            params = {n for n, _ in fn.params}
+            if st.target.id in params and isinstance(st.op, ast.Add) and env.get(st.target.id) not in (NAT, INT):
+                # `x += y` on a parameter updates the caller's object in place when it is a bytearray / list: the value
+                # semantics of this translation (re-binding) would not describe that
+                raise TranslateError(f"{fn.name}: augmented assignment to the parameter {st.target.id} (in place for a mutable argument)")
             new = ast.Assign(targets=[ast.Name(id=st.target.id, ctx=ast.Store())],
                              value=ast.BinOp(left=ast.Name(id=st.target.id, ctx=ast.Load()), op=st.op, right=st.value))
             ast.copy_location(new, st)
